@@ -192,7 +192,8 @@ def family_a_jobs(ck, quick):
 # family (b): one injected fault
 
 RULEDEF = ("#ruledef\n{\n    nop => 0x00\n    ld {x: u8} => 0x11 @ x\n    lds {x: s8} => 0x12 @ x\n"
-           "    ldn {x: u4} => 0x3 @ x\n    jmp {a: u16} => 0x20 @ a\n}")
+           "    ldn {x: u4} => 0x3 @ x\n    jmp {a: u16} => 0x20 @ a\n"
+           "    m1 {x} => asm { ld {x} }\n    m2 {x} => asm { m1 {x} }\n    m3 {x} => asm { nop\n m2 {x} }\n}")
 
 # (kind, variant, line text; {s} is a string literal body)
 FAULTS = [
@@ -205,6 +206,10 @@ FAULTS = [
     ("out-of-range", "u8", "ld 256"),
     ("out-of-range", "s8", "lds 128"),
     ("out-of-range", "u4-negative", "ldn -1"),
+    ("out-of-range", "macro-1-deep", "m1 256"),
+    ("out-of-range", "macro-2-deep", "m2 600"),
+    ("out-of-range", "macro-3-deep", "m3 300"),
+    ("undefined-symbol", "macro-2-deep", "m2 nosuch"),
     ("duplicate-label", "label", "origin:"),
     ("malformed-directive", "align-string", "#align \"{s}\""),
     ("malformed-directive", "d8-empty-element", "#d8 1,,2"),
@@ -258,7 +263,7 @@ def gen_program(rng, k):
                 out.append("k%d = %d" % (nlab[0], rng.randrange(100)))
             elif c < 0.55:
                 out.append(rng.choice(["nop", "ld 5", "ld 0xff", "lds -3", "ldn 7", "jmp origin",
-                                       "jmp @L", "ld @K", "ld @L + 1"]))
+                                       "jmp @L", "ld @K", "ld @L + 1", "m1 7", "m2 8", "m3 9"]))
             elif c < 0.75:
                 out.append(rng.choice(["#d8 1, 2, 3", "#d16 0x1234", "#d \"{s}\"", "#d8 @K, 0x10", "#d \"{s}\", 0x00",
                                        "#d16 @L"]))
